@@ -129,4 +129,5 @@ def run(ck, ctx):
         occ_ok = "AddrAlreadyMapped" in errs and any((c or "").endswith("HashMap::<K, V, S, A>::entry") for _, _, c, _ in mi.calls())
         ins = [bi for bi, t, c, _ in mi.calls() if (c or "").endswith("VacantEntry::<'a, K, V, A>::insert")]
         ck.ob("C32.4", "mmap_internal", rng_ok and occ_ok and len(ins) == 1, "mmap_internal rejects addresses outside (IO_START..) and occupied entries, inserts only into a vacant entry", "src/sim.rs:%s" % mi.line)
+    ck.include("C33", ctx, "C32.5", {"C33.3"}, "the standard devices answer exactly their own registers")
     ck.assume("an address mapped both to an internal register and a device is served by the internal register (documented limitation of mmap_internal)")
